@@ -33,7 +33,8 @@ ASSUMPTIONS = [
     "weights are >= 0 with a positive total (the cumulative weight is monotone, so searchsorted = first index)",
     "weighted_median: fewer than 2^26 values (the rounding allowance midpoint*n*eps stays below half a weight)",
     "smoothers: finite input without NaN; window_width odd; kaiser without weights and without do_fit_edges",
-    "biweight estimators: c, epsilon, max_iter at their defaults; an explicit `initial` for the location lies "
+    "biweight estimators: c, epsilon, max_iter at their defaults (except op biloc_trace: the location with all its "
+    "options on NaN-free vectors of 2..14 values, max_iter = 0..6); an explicit `initial` for the location lies "
     "within the data range; options are passed by keyword",
     "float results are compared with the exact model value at 1e-9 relative tolerance; a case whose model run passes "
     "within 1e-9 of a comparison (mask |u|=1, convergence test, cumulative weight = midpoint +- allowance, "
@@ -54,6 +55,10 @@ TRUSTED_EXTRA = [
     "the model is given",
     "harness/vectrans.py + lean/CnvVerif/Model/NpVec.lean: the typed reading of the numpy vector subset in which the "
     "estimators of descriptives.py are written (Generated/ExprsDesc.lean; rules listed at the top of vectrans.py)",
+    "harness/breakloop.py: the reading of a bounded `for _ in range(N)` loop with one early `break` as a recursion with "
+    "fuel (Generated/ExprsDescLoop.lean: the outer loop of biweight_location; rules at the top of the file)",
+    "harness/padslices.py + lean/CnvVerif/Model/PadExt5.lean: Python's rule for a step -1 slice (negative bounds count from "
+    "the end, clipped to [-1, n-1]) in which smoothing._pad_array is written (Generated/ExprsPad.lean)",
 ]
 
 PREFIX = os.environ.get("VERIF_C19_MODEL", "") == "prefix"   # model of the unrepaired functions
@@ -285,6 +290,31 @@ def loc_case(rng, name, nmax=400, n=None):
     return {"op": "loc", "tag": f"{name}-{tag}", "in": i}
 
 
+def trace_case(rng, n=None):
+    """round 5: biweight_location with ALL its options; the real function is called with max_iter = 0..K, so every
+    value the outer loop holds in `result` is compared with the model's trace (ops "biloc_trace")"""
+    n = rng.randint(2, 14) if n is None else n
+    kind = rng.choice(["outlier", "spread", "cluster", "constant", "two-level"])
+    if kind == "constant":
+        a = [float(rng.randint(-8, 8)) / 4] * n
+    elif kind == "two-level":
+        a = [rng.choice([0.0, 1.0]) * rng.choice([1, 4]) + rng.randint(-2, 2) / 16 for _ in range(n)]
+    elif kind == "cluster":
+        a = [rng.randint(-3, 3) / 16 for _ in range(n)]
+    else:
+        a = [rng.randint(-64, 64) / 16 for _ in range(n)]
+        if kind == "outlier":
+            a[rng.randrange(n)] = float(rng.choice([-1, 1]) * rng.randint(20, 400))
+    i = {"name": "biweight_location", "a": a, "cut": rng.choice([6.0, 6.0, 9.0, 2.0, 1.5, 4.5, 1.0, 0.5]),
+         "eps": rng.choice([1e-3, 1e-3, 0.125, 0.5, 1.0 / 1024, 2.0 ** -20, 0.03125]),
+         "max_iter": rng.choice([1, 2, 3, 5, 5, 6]), "k": rng.choice([2.0, 0.5, 8.0, 0.125, 1024.0]), "exact": False}
+    r = rng.random()
+    if r < 0.45:
+        lo, hi = min(a), max(a)
+        i["initial"] = rng.choice([lo, hi, (lo + hi) / 2, a[0], float(round(sum(a) / n * 4)) / 4 if lo <= round(sum(a) / n * 4) / 4 <= hi else lo])
+    return {"op": "biloc_trace", "tag": f"biloc-trace-{kind}" + ("-initial" if "initial" in i else ""), "in": i}
+
+
 def scale_case(rng, name, nmax=400, n=None):
     n = gen_len(rng, nmax) if n is None else n
     a, ex = gen_vec(rng, n) if n else ([], True)
@@ -493,6 +523,9 @@ def gen_cases(rng, tier):
             cases.append({"op": "loc", "tag": name + "-big", "in": {"name": name, "a": a, "c": 1.0, "exact": False}})
         else:
             cases.append({"op": "scale", "tag": name + "-big", "in": {"name": name, "a": a, "c": 1.0, "k": 2.0, "exact": False}})
+    # round 5: the trace of the outer loop of biweight_location, all options given
+    for _ in range(60 * mult):
+        cases.append(trace_case(rng))
     # Qn: the finite-sample factor changes at n = 10 | 11 and n = 399 | 400
     for nn in (10, 11, 399, 400):
         a, ex = gen_vec(rng, nn, rng.choice(["float", "dyadic", "small"]))
@@ -606,6 +639,19 @@ def run_impl(case):
             return wobj[0]
         return _rep(w, wrep, rseed + 1)
 
+    if op == "biloc_trace":
+        a = _arr(i["a"])
+        kw = {"c": i["cut"], "epsilon": i["eps"]}
+        init = i.get("initial")
+        vs = []
+        for m in range(0, i["max_iter"] + 1):
+            try:
+                vs.append(_num(D.biweight_location(A(a), initial=init, max_iter=m, **kw)))
+            except UnboundLocalError:
+                vs.append("UnboundLocalError")
+        k = i["k"]
+        return {"vs": vs, "v_scale": _num(D.biweight_location(A(a * k), initial=None if init is None else init * k,
+                                                                c=i["cut"], epsilon=i["eps"] * k, max_iter=i["max_iter"]))}
     if op == "loc":
         a = _arr(i["a"])
         c = i["c"]
@@ -724,6 +770,15 @@ def to_line(case, impl):
     op, i = case["op"], case["in"]
     err = isinstance(impl, dict) and "__error__" in impl
     inp = {"name": i["name"], "prefix": PREFIX}
+    if op == "biloc_trace":
+        inp.update({"a": [frac(v) for v in i["a"]], "cut": frac(i["cut"]), "eps": frac(i["eps"]),
+                    "max_iter": i["max_iter"], "k": frac(i["k"])})
+        if "initial" in i:
+            inp["initial"] = frac(i["initial"])
+        line = {"op": op, "in": inp}
+        if not err:
+            line["impl"] = {"vs": [_fr(v) for v in impl["vs"][1:]], "v_scale": _fr(impl["v_scale"])}
+        return line
     if op in ("loc", "scale"):
         inp["a"] = [_fr(v) for v in i["a"]]
         inp["c"] = frac(i["c"])
@@ -794,6 +849,16 @@ def judge(case, impl, resp):
         disagree.append("window half-width: harness (real _width2wing) != model")
     elif model_err is not None:
         disagree.append(f"model raises {model_err}, impl returns a value")
+    elif op == "biloc_trace":
+        mv, iv = out["vs"], impl["vs"]
+        if len(mv) != len(iv):
+            disagree.append("biloc_trace: number of answers")
+        for m, (x, q) in enumerate(zip(iv, mv)):
+            if isinstance(x, str) or q == "UnboundLocalError":
+                if x != q:
+                    disagree.append(f"biweight_location(max_iter={m}): impl {x} != model {q}")
+            elif not _close(x, q):
+                disagree.append(f"biweight_location(max_iter={m}): impl {x} != model {float(Fraction(q))}")
     elif op == "loc":
         if not _close(impl["v"], out):
             disagree.append(f"{i['name']}: impl {impl['v']} != model {None if out is None else float(Fraction(out))}")
